@@ -69,15 +69,33 @@ def suite_perm(ctx, case):
     s = G.build_system(sd)
     names = case.get('names') or ['poly', 'solv', 'X9', 'zz'][:n]
     names = names[:n]
-    s2 = pyPRISM.System(names, kT=sd['kT']); s2.domain = pyPRISM.Domain(length=L, dr=sd['dom'][1])
-    for t in range(n):
-        s2.density[names[t]] = sd['dens'][t]; s2.diameter[names[t]] = sd['diam'][t]
-    for (i, j) in G.pairs_of(n):
-        pr = sd['pairs']['%d%d' % (i, j)]
-        s2.potential[names[i], names[j]] = G.mk_pot(pr['pot']); s2.closure[names[i], names[j]] = G.mk_clo(pr['clo']); s2.omega[names[i], names[j]] = G.mk_om(pr['om'])
+    def build_named(lst, order):
+        """a System whose type list is the list OBJECT `lst`; position q of the list carries the species `order[q]` of `sd`"""
+        z = pyPRISM.System(lst, kT=sd['kT']); z.domain = pyPRISM.Domain(length=L, dr=sd['dom'][1])
+        for q in range(n):
+            z.density[lst[q]] = sd['dens'][order[q]]; z.diameter[lst[q]] = sd['diam'][order[q]]
+        for (i, j) in G.pairs_of(n):
+            a, b = sorted((order[i], order[j])); pr = sd['pairs']['%d%d' % (a, b)]
+            z.potential[lst[i], lst[j]] = G.mk_pot(pr['pot']); z.closure[lst[i], lst[j]] = G.mk_clo(pr['clo']); z.omega[lst[i], lst[j]] = G.mk_om(pr['om'])
+        return z
+    ident = list(range(n))
+    s2 = build_named(list(names), ident)
     with np.errstate(all='ignore'):
         y2 = s2.createPRISM().cost(x.reshape(-1).copy()).reshape((L, n, n))
     ctx.pred('perm', case, bool(np.array_equal(y2, y0)), 'renaming the types changed cost(x)', key='C04:rename')
+    # ONE list object that is edited in place between two studies (types[:] = new names; types.reverse()) and re-used for the next System
+    lst = list(G.TYPES[:n])
+    with np.errstate(all='ignore'):
+        try:
+            build_named(lst, ident).createPRISM().cost(x.reshape(-1).copy())
+            lst[:] = names
+            y3 = build_named(lst, ident).createPRISM().cost(x.reshape(-1).copy()).reshape((L, n, n))
+            lst.reverse(); rev = ident[::-1]
+            y4 = build_named(lst, rev).createPRISM().cost(x[np.ix_(range(L), rev, rev)].reshape(-1).copy()).reshape((L, n, n))
+            ok3 = bool(np.array_equal(y3, y0)); ok4, e4 = close_arr(y4, y0[np.ix_(range(L), rev, rev)], 1e-8 * cond); why = 'max diff %.3g' % e4
+        except Exception as e:
+            ok3 = ok4 = False; why = 'raised %s: %s' % (type(e).__name__, str(e)[:80])
+    ctx.pred('perm', case, ok3 and ok4, 'a type list edited in place (renamed, then reversed) and re-used for the next System does not give the renamed / permuted result: ' + why, key='C04:rename')
 
 def chain_E(k, sigma, chain='gauss'):
     if chain == 'fjc': return np.sin(k * sigma) / (k * sigma)          # rigid bonds: the cross-block omega has NEGATIVE lobes
